@@ -389,7 +389,7 @@ func (e *evalCtx) checkTerm(t *Term, prev *int64) *termFail {
 			e.info.NonTrivial = true
 		}
 	case "wod", "dc":
-		p := PoolParams{Fn: t.K, Pool: 1, Points: 10, Threshold: 8, IsGE: true, AddLine: e.opdVal(t.Y)}
+		p := PoolParams{Fn: t.K, Pool: 1, Points: 10, Threshold: 8, IsGE: true, AddLine: e.opdVal(t.Y), MaxMode: e.c.Mode == 1}
 		if t.X != nil {
 			p.Pool = e.opdVal(t.X)
 		}
@@ -771,6 +771,10 @@ func (g *vgen) xdy(depth int) *Term {
 func (g *vgen) addLineRange(poolHi, pointsHi int64) (lo, hi int64) {
 	hi = pointsHi + 2
 	if g.maxMode {
+		// max mode rolls one round whatever the add line is
+		if rapid.Bool().Draw(g.t, "maxModeAddLineWithinFaces") {
+			return 2, pointsHi + 1
+		}
 		return pointsHi + 1, pointsHi + 3
 	}
 	lo = 2
@@ -832,6 +836,10 @@ func (g *vgen) pool(kind string, depth int) *Term {
 		mods = append(mods, Mod{L: rapid.SampledFrom([]string{"k", "k", "q"}).Draw(g.t, "kq"), V: g.opd(1, pointsHi+1, depth)})
 		if len(mods) == 2 && rapid.Bool().Draw(g.t, "swap") {
 			mods[0], mods[1] = mods[1], mods[0]
+		}
+		// the modifiers may repeat, the last of a kind decides: q3k8 is k8, k2q3k8 too
+		for n := rapid.IntRange(0, 5).Draw(g.t, "thrAgain"); n >= 4; n-- {
+			mods = append(mods, Mod{L: rapid.SampledFrom([]string{"k", "q"}).Draw(g.t, "kq2"), V: g.opd(1, pointsHi+1, depth)})
 		}
 	}
 	t.Mods = mods
